@@ -409,6 +409,10 @@ func (fr *Frame) chanRecv(st *State, ch *Term, chType types.Type, commaOk bool, 
 	fr.loadFacts(st, v, elem)
 	ex.set(st, seq, Ite(ok, Store(sq, ch, Store(Select(sq, ch), cnt, v)), sq))
 	ex.set(st, "ChanRecvN_"+typeKey(elem), Ite(ok, Store(n, ch, Add(cnt, IntLit(1))), n))
+	// ghost: a receive that reports "closed" means the channel is closed and everything sent on it has been taken
+	dc := "ChanDrained_" + typeKey(elem)
+	dr := ex.get(st, dc, ArraySort(SRef, SBool))
+	ex.set(st, dc, Ite(ok, dr, Store(dr, ch, TTrue)))
 	if commaOk {
 		return Val{Tup: []Val{{T: v}, {T: ok}}}
 	}
